@@ -404,6 +404,7 @@ func checkRequestRules(c *core.Ctx, l *core.Ledger) {
 	// generateModule: modules are registered (Walk(addModules)) before root services are added
 	checkModulesFirst(c, l, "REQUEST", "generateModule.modules-first")
 	checkRootExact(c, l)
+	checkGoTypeAnnotation(c, l)
 	if f := c.SSAFunc(c.LookupFunc("gen", "generateModule")); f != nil {
 		// root services are exactly m.Services of the module being generated
 		rootOK := false
@@ -809,4 +810,71 @@ func formatSimpleTable(c *core.Ctx) map[string]string {
 		}
 	}
 	return out
+}
+
+// checkGoTypeAnnotation: whether a set is generated as a map or as a slice is
+// decided by the go.type annotation in the core generator (setUsesMap) and,
+// independently, by the plugin side when it formats the type it was sent
+// (FormatType). The two agree for every annotation value only if both compare
+// the raw annotation with the same constant, with no normalisation (case
+// folding, trimming) on either side.
+func checkGoTypeAnnotation(c *core.Ctx, l *core.Ledger) {
+	n := 0
+	consts := map[string]bool{}
+	for _, f := range c.AllFuncs("gen", "plugin") {
+		if c.IsTestFile(f.Pos()) || core.IsGenerated2(c, f) {
+			continue
+		}
+		k := 0
+		core.Instrs(f, func(in ssa.Instruction) {
+			lk, ok := in.(*ssa.Lookup)
+			if !ok {
+				return
+			}
+			key, isK := lk.Index.(*ssa.Const)
+			if !isK || key.Value == nil || key.Value.ExactString() != `"go.type"` {
+				return
+			}
+			n++
+			k++
+			site := fmt.Sprintf("%s:go.type#%d", core.SSAName(f), k)
+			var why []string
+			var vals []ssa.Value
+			if lk.CommaOk {
+				for _, r := range *lk.Referrers() {
+					if ex, ok := r.(*ssa.Extract); ok && ex.Index == 0 {
+						vals = append(vals, ex)
+					}
+				}
+			} else {
+				vals = append(vals, lk)
+			}
+			for _, v := range vals {
+				for _, r := range *v.Referrers() {
+					switch x := r.(type) {
+					case *ssa.BinOp:
+						other := x.Y
+						if other == v {
+							other = x.X
+						}
+						kc, isC := other.(*ssa.Const)
+						if (x.Op != token.EQL && x.Op != token.NEQ) || !isC || kc.Value == nil {
+							why = append(why, "the annotation value is not compared for (in)equality with a constant")
+						} else {
+							consts[kc.Value.ExactString()] = true
+						}
+					case *ssa.DebugRef:
+					default:
+						why = append(why, fmt.Sprintf("the annotation value is transformed or passed on before the test (%T at %s): the core generator and the plugin side can then read the same annotation differently", r, c.Rel(r.Pos())))
+					}
+				}
+			}
+			l.Check(len(why) == 0, "GOTYPE-AGREE", site, c.Rel(in.Pos()), "the go.type annotation is compared verbatim with a constant", strings.Join(uniq(why), "; "))
+		})
+	}
+	if n < 2 {
+		l.Unk("GOTYPE-AGREE", "sites", "", "expected the annotation to be consulted by the core generator and by the plugin formatter")
+	}
+	l.Check(len(consts) <= 1, "GOTYPE-AGREE", "same-constant", "", "all sites compare with the same constant", fmt.Sprintf("sites compare the annotation with different constants: %v", consts))
+	l.Floor("GOTYPE-AGREE", 3)
 }
